@@ -72,6 +72,8 @@ def dump_path(p: Any) -> list:
 def dump_prim(e: Any) -> tuple:
     from liquid2.builtin import (Blank, Empty, FalseLiteral, FloatLiteral, IntegerLiteral, Null, Path,
                                  RangeLiteral, StringLiteral, TrueLiteral)
+    if type(e).__name__ == "Continue":
+        return ("continue",)
     if isinstance(e, Null):
         return ("nil",)
     if isinstance(e, TrueLiteral):
@@ -282,7 +284,7 @@ def c_float(f: tuple) -> str:
 
 def c_prim(p: tuple) -> str:
     k = p[0]
-    if k in ("nil", "true", "false", "empty", "blank"):
+    if k in ("nil", "true", "false", "empty", "blank", "continue"):
         return "P" + k.capitalize()
     if k == "int":
         return f"(PInt {C.cZ(p[1])})"
